@@ -123,7 +123,8 @@ own matchers are evaluated when the walker reaches it. -/
 the theorems below unprovable when a fact could not be read). -/
 def genBuild : Build :=
   { appendsPerRule := Gen.Facts.c06ChainAppendsPerRule.getD 0
-    rewrites := Gen.Facts.c06ChainRewrites.getD 1 }
+    rewrites := Gen.Facts.c06ChainRewrites.getD 1
+    earlyMatcherReturns := Gen.Facts.c06NewMatcherEarlyReturns.getD 1 }
 
 theorem flatMap_replicate_one (rules : List Rule) :
     rules.flatMap (fun r => List.replicate 1 r) = rules := by
@@ -131,24 +132,43 @@ theorem flatMap_replicate_one (rules : List Rule) :
   | nil => rfl
   | cons r rs ih => simp [List.flatMap_cons, ih]
 
-/-- **One node per rule, none merged, dropped, duplicated or reordered**: the
-chain built by the current `NewSequence`/`buildChain` is exactly the configured
-rule list, whatever a (non-existent) later pass would do. -/
-theorem built_chain_is_rules (rewrite : List Rule → List Rule) (rules : List Rule) :
-    genBuild.chain rewrite rules = rules := by
-  simp only [Build.chain, genBuild, Gen.Facts.c06ChainAppendsPerRule, Gen.Facts.c06ChainRewrites,
+/-- When every path of `newMatcher` that delivers a matcher passes the reverse
+wiring, each matcher reaches its node negated iff it was written with '!'. -/
+theorem wireMatchers_id (b : Build) (h : b.earlyMatcherReturns = 0) (early : Nat → Nat → Bool)
+    (ri mi : Nat) (ms : List (Bool × Nat)) : b.wireMatchers early ri mi ms = ms := by
+  induction ms generalizing mi with
+  | nil => rfl
+  | cons p ms ih => obtain ⟨rev, m⟩ := p; simp [Build.wireMatchers, h, ih]
+
+theorem wireRules_id (b : Build) (h : b.earlyMatcherReturns = 0) (early : Nat → Nat → Bool)
+    (ri : Nat) (rules : List Rule) : b.wireRules early ri rules = rules := by
+  induction rules generalizing ri with
+  | nil => rfl
+  | cons r rs ih => cases r; simp [Build.wireRules, wireMatchers_id b h, ih]
+
+/-- **One node per rule, none merged, dropped, duplicated or reordered, every
+matcher negated exactly where '!' was written**: the chain built by the current
+`NewSequence`/`buildChain`/`newNode`/`newMatcher` is exactly the configured
+rule list, whatever a (non-existent) later pass or early return would do. -/
+theorem built_chain_is_rules (rewrite : List Rule → List Rule) (early : Nat → Nat → Bool)
+    (rules : List Rule) : genBuild.chain rewrite early rules = rules := by
+  have h : genBuild.earlyMatcherReturns = 0 := by
+    simp [genBuild, Gen.Facts.c06NewMatcherEarlyReturns]
+  simp only [Build.chain, wireRules_id genBuild h]
+  simp only [genBuild, Gen.Facts.c06ChainAppendsPerRule, Gen.Facts.c06ChainRewrites,
     Option.getD_some, if_true]
   exact flatMap_replicate_one rules
 
-theorem built_chain_length (rewrite : List Rule → List Rule) (rules : List Rule) :
-    (genBuild.chain rewrite rules).length = rules.length := by
+theorem built_chain_length (rewrite : List Rule → List Rule) (early : Nat → Nat → Bool)
+    (rules : List Rule) : (genBuild.chain rewrite early rules).length = rules.length := by
   rw [built_chain_is_rules]
 
 /-- **C06 from the rule list**: executing the sequence built from `rules`
 (`Sequence.Exec`: a fresh walker on the built chain, no caller) is the
 continuation semantics of the property statement on `rules`. -/
-theorem sequence_exec_eq_run (sem : Sem St E) (rewrite : List Rule → List Rule) (rules : List Rule) (s : St) :
-    execNext sem (genBuild.chain rewrite rules) [] s = run sem rules .ok s := by
+theorem sequence_exec_eq_run (sem : Sem St E) (rewrite : List Rule → List Rule)
+    (early : Nat → Nat → Bool) (rules : List Rule) (s : St) :
+    execNext sem (genBuild.chain rewrite early rules) [] s = run sem rules .ok s := by
   rw [built_chain_is_rules, exec_top]
 
 /-- Why the construction facts matter: a pass that folds a rule into the
@@ -168,10 +188,25 @@ def folded : List Rule → List Rule := fun _ => [.mk [(true, 0)] (.plain 12)]
 
 theorem folding_rules_changes_behaviour :
     run respSem twoRules .ok ([], false) = .ok ([0, 101, 0], true) ∧
-    execNext respSem (Build.chain ⟨1, 1⟩ folded twoRules) [] ([], false) = .ok ([0, 101, 102], true) := by
+    execNext respSem (Build.chain ⟨1, 1, 0⟩ folded (fun _ _ => false) twoRules) [] ([], false) = .ok ([0, 101, 102], true) := by
   constructor
   · simp [run, evalMatchers, respSem, twoRules]
   · simp [Build.chain, folded, exec_eq_run, run, denote, evalMatchers, respSem]
+
+/-- Why "no return ahead of the reverse wiring" matters: a `newMatcher` that
+remembers the matchers it built by their text and returns the remembered one
+straight away (`early`: every rule after the first) loses the '!' of the
+if/else idiom `0 -> 1 ; !0 -> 2`: both branches run. -/
+def ifElse : List Rule := [.mk [(false, 0)] (.plain 1), .mk [(true, 0)] (.plain 2)]
+
+theorem lost_negation_changes_behaviour :
+    run (logSem fun _ => true) ifElse .ok [] = .ok [0, 1001, 0] ∧
+    execNext (logSem fun _ => true) (Build.chain ⟨1, 0, 1⟩ id (fun ri _ => ri ≥ 1) ifElse) [] [] =
+      .ok [0, 1001, 0, 1002] := by
+  constructor
+  · simp [run, evalMatchers, logSem, ifElse]
+  · simp [Build.chain, Build.wireRules, Build.wireMatchers, ifElse, exec_eq_run, run, denote,
+      evalMatchers, logSem]
 
 /-! ### Guards over the regenerated facts -/
 theorem facts_guard :
@@ -189,6 +224,7 @@ theorem facts_guard :
     Gen.Facts.c06ChainAppendsPerRule = some 1 ∧
     Gen.Facts.c06ChainRewrites = some 0 ∧
     Gen.Facts.c06NewNodeShape = some true ∧
+    Gen.Facts.c06NewMatcherEarlyReturns = some 0 ∧
     Gen.Facts.c06NewSequenceShape = some true ∧
     Gen.Facts.c06SequenceExecWalksWholeChain = some true := by decide
 
